@@ -193,7 +193,8 @@ func (p *pkgInfo) funcs() map[fnKey]*ast.FuncDecl {
 			}
 		}
 	}
-	inlineViews(p, m) // code_lend.go: view methods used as range operands are inlined at source level (idempotent)
+	liftCallbackLits(p, m) // code_cblift.go: a closure handed as a logged callback is lambda-lifted at source level (idempotent)
+	inlineViews(p, m)      // code_lend.go: view methods used as range operands are inlined at source level (idempotent)
 	return m
 }
 
